@@ -224,6 +224,32 @@ void harness(void)
   V_IN(int, emit_rc);
   static YYSTYPE stack[3], out;
   static YR_COMPILER compiler;
+#ifdef NARROW
+  /* 64-bit multiplication/division equalities are out of reach of every
+   * installed back end (DESIGN.md 7). Bounded stand-in, operand classes:
+   * 1: both sign-extended 8-bit; 2: b = 0; 3: b = -1; 4: b not a constant;
+   * 5: a not a constant; 6: a = INT64_MIN, b 8-bit; 7: b = 1;
+   * 8: a = INT64_MAX, b 8-bit */
+  V_IN(int8_t, a8);
+  V_IN(int8_t, b8);
+#if NARROW == 1
+  a = a8; b = b8;
+#elif NARROW == 2
+  b = 0;
+#elif NARROW == 3
+  b = -1;
+#elif NARROW == 4
+  b = VS_UNDEF;
+#elif NARROW == 5
+  a = VS_UNDEF;
+#elif NARROW == 6
+  a = INT64_MIN; b = b8;
+#elif NARROW == 7
+  b = 1;
+#elif NARROW == 8
+  a = INT64_MAX; b = b8;
+#endif
+#endif
   memset(stack, 0, sizeof stack);
 #ifndef UNARY
   stack[0].expression.type = EXPRESSION_TYPE_INTEGER;
